@@ -190,6 +190,31 @@ func pooledWriterSession(tag byte) func(l logger) {
 	}
 }
 
+// compressingWriterSession: a connection with permessage-deflate that borrows a writer of the
+// common size class (and builds one whose Size() is that class), gives each a compressing
+// message state and a disabled flush, sends a message and hands the writer to PutWriter - what
+// the next borrower gets is a writer like new.
+func compressingWriterSession(tag byte) func(l logger) {
+	return func(l logger) {
+		for _, built := range []bool{false, true} {
+			d := newDst(l)
+			var w *wsutil.Writer
+			if built {
+				w = wsutil.NewWriterSize(d, ws.StateServerSide|ws.StateExtended, ws.OpText, 128)
+			} else {
+				w = wsutil.GetWriter(d, ws.StateServerSide|ws.StateExtended, ws.OpText, 128)
+			}
+			var ms wsflate.MessageState
+			ms.SetCompressed(true)
+			w.SetExtensions(&ms)
+			w.Write(fill(300, tag))
+			err := w.Flush()
+			l.Logf("compressing-borrower built=%v err=%v %s", built, err, framesLog(d.Bytes()))
+			wsutil.PutWriter(w)
+		}
+	}
+}
+
 // customServerSession: an upgrader whose zero-copy callbacks hand back values that point into
 // the request as it lies in the read buffer (allowed: "valid until Upgrade returns"), and whose
 // OnBeforeUpgrade hook takes its time (another connection gets served meanwhile).
@@ -663,6 +688,7 @@ func sessions() map[string]session {
 	add("S8", customServerSession('m'))
 	add("S9", pooledWriterSession(9))
 	add("S9b", pooledWriterSession(10))
+	add("S10", compressingWriterSession(11))
 	add("S8b", customServerSession('n'))
 	add("S6b", textSession(7))
 	return m
@@ -891,7 +917,7 @@ func main() {
 			t.Outcome("deterministic")
 			t.Note("each session alone: same log on the non-recycling pool twice and on the poisoning LIFO pool")
 		})
-		mixes2 := [][]string{{"S2s", "S2t"}, {"S4a", "S4b"}, {"S1", "S2"}, {"S1", "S1b"}, {"S2", "S2b"}, {"S1", "S3"}, {"S2", "S3"}, {"S3", "S3b"}, {"S1L", "S2L"}, {"S1L", "S1"}, {"S3L", "S2"}, {"S3L", "S3"}, {"S3", "S5"}, {"S5", "S5b"}, {"S6", "S6b"}, {"S1", "S6"}, {"S7", "S2"}, {"S8", "S8b"}, {"S8", "S1"}, {"S3", "S9"}, {"S9", "S9b"}}
+		mixes2 := [][]string{{"S2s", "S2t"}, {"S4a", "S4b"}, {"S1", "S2"}, {"S1", "S1b"}, {"S2", "S2b"}, {"S1", "S3"}, {"S2", "S3"}, {"S3", "S3b"}, {"S1L", "S2L"}, {"S1L", "S1"}, {"S3L", "S2"}, {"S3L", "S3"}, {"S3", "S5"}, {"S5", "S5b"}, {"S6", "S6b"}, {"S1", "S6"}, {"S7", "S2"}, {"S8", "S8b"}, {"S8", "S1"}, {"S3", "S9"}, {"S9", "S9b"}, {"S10", "S9"}}
 		mixes3 := [][]string{{"S1", "S2", "S3"}, {"S1", "S1b", "S2"}, {"S2", "S2b", "S3"}}
 		r.Part("E1-two-sessions-preemption-bounded", func(t *explore.T) {
 			b := t.Pick(2, 3)
